@@ -34,6 +34,13 @@ Calibration (unchanged tree)
 * a wrong end point is excluded from the monotonicity facet (one mechanism, one label per case).
 * lazy dtype of da.percentile / nanpercentile is not compared (NumPy's dtype is value dependent with NaN).
 * genuine findings: PENDING / findings_proposed/C32.md.
+
+Sibling facet (vf/mon/siblings.py): every case is also built a second time with ONE result-relevant parameter changed
+(another q / method (percentile), another q / method / axis / keepdims (nanpercentile)).
+The two lazily built collections must not share output keys unless their stand-alone values are equal (label
+``<op>:<param>-not-in-name:siblings-share-keys``); for a seeded ~15 % of the cases both are also computed in one graph and
+compared with their stand-alone values (``<op>:<param>:differs-when-computed-with-sibling``).  Counters siblings_built /
+siblings_computed_together / siblings_with_different_values have floors.
 """
 from __future__ import annotations
 
